@@ -367,17 +367,25 @@ def all_resources(rep, idx):
         return sorted(("res" if k[0] else "-") + "/" + ("win" if k[1] else "-") for k, v_ in tab.items() if v_ is not False)
     want_d = {(False, False): False, (False, True): False, (True, False): True, (True, True): True}
     want_t = {(False, False): False, (False, True): True, (True, False): False, (True, True): False}
-    ok = len(direct) == 1 and direct[0][1] == want_d
+    # an entry in neither table does not exist (add_resource / add_window record the object in the same call that inserts its range,
+    # C02.4): that row is a don't-care -- whichever arm it falls into looks the object up in a table and fails there
+    def same(tab, want):
+        return all(tab.get(k) == v for k, v in want.items() if k != (False, False))
+    ok = len(direct) == 1 and same(direct[0][1], want_d)
     und = other or any(None in t[1].values() for t in direct + through)
     rep.form(ok, "C03.3", site, "local resources are reported exactly when the entry is in the resource table",
              f"direct yields under {[shows(d_[1]) for d_ in direct]}", wrong=None if und else "the guard of the local-resource result is not `entry is in the resource table`")
-    ok2 = len(through) == 1 and through[0][1] == want_t
+    ok2 = len(through) == 1 and same(through[0][1], want_t)
     rep.form(ok2, "C03.3", site, "window contents are reported exactly when the entry is in the window table and not in the resource table (a partition)",
              f"translated yields under {[shows(d_[1]) for d_ in through]}",
              wrong=None if und else "the guard of the window-contents result is not `entry is in the window table` (and not a resource)")
     # an entry in neither table is an internal error
     if und and not assert_fails_somewhere(c, atoms, (False, False)):
         rep.unk("C03.3", site, "an entry in neither table is an internal error (a failing assert)", "not decided for this form of the traversal")
+    elif ok and ok2 and not assert_fails_somewhere(c, atoms, (False, False)):
+        rep.ok("C03.3", site, "an entry in neither table is an internal error (a failing assert)",
+               "no assert, but such an entry falls into an arm that looks it up in a table it is not in (KeyError): an internal error "
+               "all the same, for an entry that cannot exist", nontrivial=False)
     else:
         rep.check(assert_fails_somewhere(c, atoms, (False, False)), "C03.3", site, "an entry in neither table is an internal error (a failing assert)",
                   "no assert fails for an entry that is in neither table", nontrivial=False)
@@ -578,7 +586,9 @@ def decode_address(rep, idx):
     rep.form(gives_A - {k for k in gives_A if k[0]} == want_res, "C03.6", site, "an address inside a resource decodes to that resource",
              f"the looked-up assignment is returned under {sorted(gives_A)} (none, resource, window)",
              wrong=None if und or gives_A else "no path returns the looked-up assignment itself")
-    rec_ok = len(r2) == 1 and gives_rec == {(False, False, True)}
+    # an assignment that was found and is in neither table cannot exist (C02.4): a recursive decode that also covers that row looks the
+    # object up in the window table and fails there -- a don't-care
+    rec_ok = len(r2) == 1 and gives_rec - {(False, False, False)} == {(False, False, True)}
     if not rec_ok and und:
         rep.unk("C03.6", site, "an address inside a window is decoded by the window's map",
                 "the descent into windows is written as a loop, or is guarded by a condition outside the rule's atoms; the verified form is the recursive one")
